@@ -122,7 +122,8 @@ OPS = ["add", "add", "update", "update-rename", "replace", "remove", "enable", "
        "disable", "move-up", "move-down"]
 
 
-def gen_history(rng, length, vkind, names=None, cond_kinds=None, act_kinds=None):
+def gen_history(rng, length, vkind, names=None, cond_kinds=None, act_kinds=None,
+                bytes_names=0.1):
     names = names or filtgen.NAME_POOL
     h = []
     for _ in range(length):
@@ -148,23 +149,47 @@ def gen_history(rng, length, vkind, names=None, cond_kinds=None, act_kinds=None)
             h.append(("move", n, "up"))
         else:
             h.append(("move", n, "down"))
+        if rng.random() < bytes_names:
+            h[-1] = bytes_twin(h[-1])
     return h
+
+
+def _m(n):
+    """model-side name: the API takes names as str or as UTF-8 bytes, the list is one of str"""
+    return n.decode("utf-8") if isinstance(n, bytes) else n
+
+
+def bytes_twin(op):
+    """same operation with every name passed as UTF-8 bytes"""
+    def b(n):
+        return n.encode("utf-8") if isinstance(n, str) else n
+    k = op[0]
+    if k == "add":
+        return (k, b(op[1])) + tuple(op[2:])
+    if k == "update":
+        return (k, b(op[1]), b(op[2])) + tuple(op[3:])
+    if k == "replace":
+        return (k, b(op[1]), b(op[2]), b(op[3])) + tuple(op[4:])
+    return (k, b(op[1])) + tuple(op[2:])
 
 
 def apply_op(fs, model: RList, op):
     """Apply one op to the real set and to the model.
     -> (real outcome, model outcome, applicable?)"""
     k = op[0]
+    raw = op
+    op = tuple(_m(x) for x in op)
     if k == "add":
         _, n, d = op
-        real = call(fs.addfilter, n, copy.deepcopy(d.conditions), copy.deepcopy(d.actions),
-                    d.matchtype)
+        n_raw = raw[1]
+        real = call(fs.addfilter, n_raw, copy.deepcopy(d.conditions),
+                    copy.deepcopy(d.actions), d.matchtype)
         if real[0] == "exc" and real[1] != "FilterAlreadyExists":
             return real, None, False  # definition refused by the builder
         return real, model.add(n, d), True
     if k == "update":
         _, old, new, d = op
-        real = call(fs.updatefilter, old, new, copy.deepcopy(d.conditions),
+        real = call(fs.updatefilter, raw[1], raw[2], copy.deepcopy(d.conditions),
                     copy.deepcopy(d.actions), d.matchtype)
         if real[0] == "exc" and real[1] != "FilterAlreadyExists":
             return real, None, False
@@ -172,20 +197,20 @@ def apply_op(fs, model: RList, op):
     if k == "replace":
         _, old, src, new, desc = op
         i = model.idx(src)
-        content = call(fs.getfilter, src)
+        content = call(fs.getfilter, raw[2])
         if i < 0 or content[0] != "ret" or content[1] is None:
             # replace with a content taken from a non-existing filter: skip
             return ("skip",), None, False
-        real = call(fs.replacefilter, old, content[1], new, desc)
+        real = call(fs.replacefilter, raw[1], content[1], raw[3], desc)
         return real, model.replace(old, model.f[i].d, new, desc), True
     if k == "remove":
-        return call(fs.removefilter, op[1]), model.remove(op[1]), True
+        return call(fs.removefilter, raw[1]), model.remove(op[1]), True
     if k == "enable":
-        return call(fs.enablefilter, op[1]), model.enable(op[1]), True
+        return call(fs.enablefilter, raw[1]), model.enable(op[1]), True
     if k == "disable":
-        return call(fs.disablefilter, op[1]), model.disable(op[1]), True
+        return call(fs.disablefilter, raw[1]), model.disable(op[1]), True
     if k == "move":
-        return call(fs.movefilter, op[1], op[2]), model.move(op[1], op[2]), True
+        return call(fs.movefilter, raw[1], op[2]), model.move(op[1], op[2]), True
     raise ValueError(k)
 
 
